@@ -217,7 +217,7 @@ fn signature(tier: &str, job_json: &Value, v: &Violation) -> Value {
 }
 
 pub fn write_replay_p(paths: &Paths, ctx: &Ctx, seed: u64, run: u64, job: &Job, p: &Perturb, v: &Violation, min_steps: u32, original: Option<(&Job, &Perturb)>) -> PathBuf {
-    let path = paths.verif.join("replays").join(format!("C11-{seed}-P{run}.json"));
+    let path = paths.out.join("replays").join(format!("C11-{seed}-P{run}.json"));
     let mut j = json!({
         "property": "C11",
         "tier": "P",
@@ -474,7 +474,7 @@ pub fn check(paths: &Paths, tier: &str) -> i32 {
             "sampling, not enumeration: a clean batch is evidence, not proof"
         ],
     });
-    if let Err(e) = write_json(&paths.verif.join("evidence/C11.json"), &evidence) {
+    if let Err(e) = write_json(&paths.out.join("evidence/C11.json"), &evidence) {
         eprintln!("envsim: cannot write evidence: {e}");
         return 2;
     }
